@@ -60,6 +60,7 @@ func runC15(c *Ctx) {
 	checkRescanFinishedAlwaysMarksSynced(c, "C15-R2")
 	checkStoppedClientIsDetached(c, "C15-R2")
 	checkNeutrinoProducerDiscipline(c, "C15-R2", "a")
+	checkSyncStateReadUnderManagerLock(c, "C15-R5")
 	// the wallet can follow the backend only if the notifications reach it in the order they were produced
 	c.Borrow(runC18, "C18-R1", "C15-R2", func(k string) bool { return strings.HasPrefix(k, "direct-handoff-only-when-overflow-empty") })
 	// the two stores move together during recovery too: a batch's stamps and the transactions found in it are written in
